@@ -6,6 +6,7 @@ import (
 	"math/rand"
 	"os"
 	"sort"
+	"time"
 
 	"verif/harness/cbsim"
 	"verif/harness/drv"
@@ -255,6 +256,13 @@ func c01Spec(rng *rand.Rand, i int) *SessSpec {
 		sp.AutoReset = "latest"
 	}
 	o := &HistOpts{NumVB: sp.NumVB, PReserved: 0.1, PSystem: 0.08, PSeqAdv: 0.2, MaxItems: 5}
+	if i%5 == 3 {
+		// a skip window: events whose CAS time lies before it are dropped by the library - they are neither acknowledged nor
+		// absorbed, so no checkpoint may name them while earlier deliveries are unsettled
+		sp.SkipUntil = time.Now().Unix() - int64(rng.Intn(3))
+		o.SkipUntil = sp.SkipUntil
+		o.CasAround = true
+	}
 	ctr := 0
 	for vb := 0; vb < sp.NumVB; vb++ {
 		for s := 0; s < rng.Intn(3); s++ {
